@@ -17,6 +17,8 @@ Monitor (independent of the Lean model), checked at every trigger call and after
   * "submit and back" through the real deferred chains of both endpoints with step_2 succeeding, returning FAILED or
     raising; a refused reset request changes nothing (farm.ARCHIVE, flags, priority); an accepted update with the
     REAL `_reload` / `RollbackImporter` on an AE package on disk (changesets adding imports) returns to rest;
+  * idle registered workers (real farm.Hand on fake transports) are never told `wait` while the pipeline is not at
+    rest in running, and the dispatch round that starts an archive leaves none registered;
   * (for C11) `_reload` never runs while the pipeline is active, and after it the pipeline is not active again
     before `FSM.load` ran (`farm.clear` observed).
 """
@@ -71,8 +73,8 @@ TRUSTED = [
 STATES = ['archiving', 'contemplation', 'gitting', 'loading', 'running', 'starting', 'updating']
 STATUS = ['active', 'entering', 'exiting']
 STEPS = ['load', 'reload', 'archive', 'navel']
-ALPHABET = ['boot', 'sb_api', 'sb_old', 'se_ok', 'se_fail', 'da', 'fa', 'up', 'rf', 'rt', 'c0F', 'c0T', 'c1F']
-MODEL_EV = {'sr': 'sr', 'boot': 'boot', 'sb_api': 'sb', 'sb_old': 'sb', 'se_ok': 'se', 'se_fail': 'se', 'da': 'da',
+ALPHABET = ['boot', 'sb_api', 'sb_old', 'se_ok', 'se_fail', 'da', 'daH', 'fa', 'up', 'rf', 'rt', 'c0F', 'c0T', 'c1F']
+MODEL_EV = {'daH': 'da', 'sr': 'sr', 'boot': 'boot', 'sb_api': 'sb', 'sb_old': 'sb', 'se_ok': 'se', 'se_fail': 'se', 'da': 'da',
             'fa': 'fa', 'up': 'up', 'rf': 'rf', 'rt': 'rt'}
 
 
@@ -95,6 +97,8 @@ def apply(w, e):
         return w.ev_submit_end(False)
     if e == 'da':
         return w.ev_dispatch()
+    if e == 'daH':   # two idle registered workers (real farm.Hand on fake transports), then the dispatch round
+        return w.ev_dispatch(hands=2)
     if e == 'fa':
         return w.ev_flag()
     if e == 'up':
@@ -132,7 +136,7 @@ def canon_model(x):
 
 def run_history(w, archive0, events, res, drain_rng=None, tag='hist'):
     """returns the list of observations; reports monitor hits"""
-    w.fresh(archive0)
+    w.fresh(archive0, insights=len(events) % 3 != 0)   # earlier runs left metrics (farm.insights) or not
     obs = []
     for i, e in enumerate(events):
         obs.append(apply(w, e))
@@ -189,7 +193,7 @@ def enumerate_histories(w, res, prefix, depth, archive0, lines, pending, seen_li
     while stack:
         seq = stack.pop()
         events = prefix + seq
-        w.fresh(archive0)
+        w.fresh(archive0, insights=len(events) % 3 != 0)
         snap = w.snapshot()
         obs = []
         noop_last = False
@@ -259,6 +263,12 @@ CORPUS = [
     # a reset with archive refused while a submission is staged, then back to running and an idle dispatch tick
     (False, ['boot', 'c0F', 'c0F', 'sb_api', 'rt', 'se_ok', 'da', 'c0F']),
     (False, ['boot', 'rt', 'c0F', 'rt', 'c0F', 'da', 'up', 'rt', 'c0F', 'c0F', 'c0F', 'da']),
+    # new data, idle farm with idle registered workers (real farm.Hand): the round that starts the archive must send
+    # them away; after the archive they may wait again
+    (True, ['boot', 'c0F', 'c0F', 'daH', 'c0T', 'daH', 'fa', 'daH', 'da', 'c0F', 'da']),
+    (False, ['boot', 'c0F', 'c0F', 'daH', 'sb_api', 'daH', 'se_ok', 'fa', 'da', 'c0T']),
+    # a second load with metrics of earlier runs present (farm.insights populated by the first introspection)
+    (False, ['boot', 'c0F', 'c0F', 'up', 'c0F', 'c0F', 'c0F', 'up', 'c0F', 'c0F', 'c0F', 'da']),
     # boot twice, events before boot
     (False, ['sb_api', 'da', 'up', 'rf', 'c0F', 'boot', 'boot', 'c0F', 'boot', 'c0F', 'boot']),
 ]
@@ -275,7 +285,7 @@ def gen_random_chain(r):
 def gen_random(r):
     n = r.choice([4, 8, 12, 16, 25])
     ev = ['boot'] if r.random() < 0.9 else []
-    weights = {'boot': 1, 'sb_api': 3, 'sb_old': 3, 'se_ok': 4, 'se_fail': 3, 'da': 5, 'fa': 4, 'up': 5, 'rf': 3,
+    weights = {'boot': 1, 'sb_api': 3, 'sb_old': 3, 'se_ok': 4, 'se_fail': 3, 'da': 3, 'daH': 3, 'fa': 4, 'up': 5, 'rf': 3,
                'rt': 3, 'c0F': 12, 'c0T': 6, 'c1F': 1}
     names, ws = list(weights), list(weights.values())
     ev += r.choices(names, ws, k=n)
